@@ -54,7 +54,8 @@ def cases(draw):
             ops.append(["analyze"])
         else:
             ops.append(["reopen"])
-    return {"ops": ops}
+    # the data files of the rope folder may be symbolic links to files kept elsewhere (a shared settings folder)
+    return {"ops": ops, "symlinked_data": draw(st.integers(0, 2)) == 0}
 
 
 def strategy(tier):
@@ -74,15 +75,21 @@ class _Rec:
         self.events = []
         self.files = []
 
+    @staticmethod
+    def _where(path):
+        # the directory is resolved, the entry itself is not: a data file that is a symbolic link is still that entry
+        p = os.path.abspath(os.fspath(path))
+        return os.path.join(os.path.realpath(os.path.dirname(p)), os.path.basename(p))
+
     def inside(self, path):
         try:
-            p = os.path.realpath(os.fspath(path))
+            p = self._where(path)
         except TypeError:
             return False
         return p.startswith(self.ropedir + os.sep)
 
     def rel(self, path):
-        return os.path.relpath(os.path.realpath(os.fspath(path)), self.ropedir)
+        return os.path.relpath(self._where(path), self.ropedir)
 
 
 class _RecFile:
@@ -356,6 +363,24 @@ def evaluate(case, env):
                 project.close()
                 project = _open(root)
             tree_now = fsmodel.snapshot(root)
+        if case.get("symlinked_data"):
+            old_obs = _observe(project)
+            project.close()
+            shared = os.path.join(os.path.dirname(root), os.path.basename(root) + "_shared")
+            os.makedirs(shared, exist_ok=True)
+            for name in sorted(os.listdir(ropedir)):
+                full = os.path.join(ropedir, name)
+                if os.path.isfile(full) and not os.path.islink(full) and not name.endswith((".py", ".tmp")):
+                    shutil.move(full, os.path.join(shared, name))
+                    os.symlink(os.path.join(shared, name), full)
+            out.labels["symlinked_data_files"] += 1
+            project = _open(root)
+            # one more change, so that the final save has something new to write
+            extra = sorted(p for p in fsmodel.snapshot(root) if p.endswith(".py"))[0]
+            from rope.base.change import ChangeContents
+
+            project.do(ChangeContents(project.get_file(extra), project.get_file(extra).read() + "# more\n"))
+            project.pycore.analyze_module(project.get_file(extra))
         new_obs = _observe(project)
         pre = read_folder(ropedir)
         events = record_close(project, ropedir)
